@@ -56,7 +56,7 @@ VerAtoms == { a \in [kind : {"ver"}, var : {"python_version", "python_full_versi
                 /\ (a.rev => a.op \notin {"~=", "==*", "!=*"})               \* both operand orders: comparison operators
                 \* python_version operands: X, X.Y and the X.Y.0 spelling the library itself produces when it
                 \* re-renders a merged specifier (`python_version != "3.8.0"`)
-                /\ (a.var = "python_version" => Len(a.rel) <= 2 \/ (a.rel[3] = 0 /\ a.op \notin {"~=", "==*", "!=*"})) }
+                /\ (a.var = "python_version" => Len(a.rel) <= 2 \/ (a.rel[3] = 0 /\ a.op \notin {"==*", "!=*"})) }
 ListAtoms == { [kind |-> "list", var |-> "python_version", op |-> o, items |-> <<x, y>>] :
                  o \in {"in", "not in"}, x \in ListItems, y \in ListItems } \cup
              { [kind |-> "list", var |-> "python_version", op |-> o, items |-> <<x>>] : o \in {"in", "not in"}, x \in ListItems }
@@ -110,8 +110,10 @@ ListViewIsSetOfSeries(a, v) ==
 \*  operand "X" compares like "X.0" - fix commit 1f6b13e).
 OneSegmentPadsToTwo == TRUE
 TrailingZeroIsStripped == TRUE      \* "X.Y.0" is normalised like "X.Y" (fix commit); FALSE: taken as a full version
+StripsCompatToo == FALSE            \* TRUE models the short-lived regression that also stripped the ".0" of a ~= operand
 NormalizeView(a) ==
-  LET short == IF TrailingZeroIsStripped /\ Len(a.rel) = 3 /\ a.rel[3] = 0 THEN SubSeq(a.rel, 1, 2) ELSE a.rel IN
+  LET short == IF TrailingZeroIsStripped /\ Len(a.rel) = 3 /\ a.rel[3] = 0 /\ (a.op # "~=" \/ StripsCompatToo)
+                 THEN SubSeq(a.rel, 1, 2) ELSE a.rel IN
   IF a.kind # "ver" \/ Len(short) > 2 \/ a.op \in {"==*", "!=*"} THEN SpecifierView(a)
   ELSE LET op  == StoredOp(a)
            rel == IF Len(short) = 1 /\ OneSegmentPadsToTwo THEN Append(short, 0) ELSE short
